@@ -304,6 +304,16 @@ func run(c *mc.Ctx) {
 			for _, p := range judgeDirect(c, w, d, true) {
 				c.Violation(p.Key, p.What+"\ncontact: "+mc.JSON(d.Contact)+"\nmodifier: "+mc.JSON(d.Modifier), map[string]any{"space": "direct", "case": d})
 			}
+			// modifiers that name groups, read against a second instance of the same assets
+			if t, _ := mods[mi]["type"].(string); t == "groups" {
+				d2 := &cf.Direct{Contact: contacts[ci], Modifier: mods[mi], MaxField: 640, OtherAssets: true}
+				c.Inc("evaluations")
+				c.Inc("states")
+				c.Inc("transitions")
+				for _, p := range judgeDirect(c, w, d2, true) {
+					c.Violation("reloaded-assets:"+p.Key, p.What+"\ncontact: "+mc.JSON(d2.Contact)+"\nmodifier (read against a second instance of the assets): "+mc.JSON(d2.Modifier), map[string]any{"space": "direct", "case": d2})
+				}
+			}
 		}
 		c.Inc("distinct_nontrivial")
 	}
@@ -398,7 +408,7 @@ func init() {
 	mc.Register(&mc.Check{
 		ID:    "C06",
 		Level: "model_checking",
-		Rule: "invariant on every state of two exhaustively enumerated spaces on the real code, with 23 query-based groups (one per queryable property: name, language, tel/urn/scheme, created_on, last_seen_on, tickets, text/number/datetime/location fields, AND, OR; != over properties with several values, the tokenized name match, a nested combination): (A) starting contacts (incl. wrong stored membership, non-active) x the whole modifier alphabet applied through modifiers.Apply; " +
+		Rule: "invariant on every state of two exhaustively enumerated spaces on the real code, with 25 query-based groups (one per queryable property: name, language, tel/urn/scheme, created_on, last_seen_on, tickets, text/number/datetime/location fields, AND, OR; != over properties with several values, the tokenized name match, a nested combination): (A) starting contacts (incl. wrong stored membership, non-active) x the whole modifier alphabet applied through modifiers.Apply; " +
 			"(B) engine: all ordered pairs of 16 contact-changing actions with/without a wait between x {manual,msg} triggers x 24 starting contacts x histories {start, msg resume, msg resume with refreshed contact}. Oracle: member(g) <=> active AND the query matches, where matching is decided by hand-written reference predicates over the contact JSON (the library evaluator, run on the harness's own parse of the query, must agree with them); active->non-active leaves no static groups; net membership change per group == what contact_groups_changed events announce.",
 		Assumptions: []string{"a modifier that reports not-modified is not judged on a contact whose stored membership was already wrong (no re-evaluation is promised for a no-op)", "the query is evaluated in the session's environment"},
 		Run:         run,
